@@ -1,167 +1,26 @@
 (* C10, first half: every image reachable through the validated field API (Spec/CodecSpec.v: reach)
-   satisfies the invariant reach_inv: right length, bytes only, no infinity in a float leaf, binary32 NaNs
-   quiet, Char/String leaves ASCII, String leaves NUL-terminated, padding bytes zero.
-   The float-array case needs the recorded exclusion (first element not NaN): then Python's max and min are
-   true bounds of the non-NaN elements and, the conversions being monotone, no element converts to infinity. *)
-From Coq Require Import ZArith List Bool Lia ZifyBool Arith Reals Psatz.
-From Flocq Require Import Core.Core IEEE754.BinarySingleNaN IEEE754.Binary IEEE754.Bits.
+   satisfies the invariant reach_inv (right length, bytes only, no infinity in a float leaf, binary32 NaNs
+   quiet, Char/String leaves ASCII, String leaves NUL-terminated, padding bytes zero) and has clean strings
+   (nothing but zeros after the first NUL of a char array: the String descriptor clears the array before a
+   shorter value is stored).  validate_many converts and tests every element of a float sequence, so every
+   stored element was itself found not infinite. *)
+From Coq Require Import ZArith List Bool Lia ZifyBool Arith.
 From Val Require Import Gen.ValidatorTbl Model.Bytes Model.Floats Model.Values Model.Codec Spec.ValSpec Spec.CodecSpec
   Proofs.BytesProofs Proofs.ValuesProofs Proofs.RefuseProofs Proofs.ReadbackProofs Proofs.XnumProofs Proofs.FloatProofs
   Proofs.FloatArrayProofs.
 Import ListNotations.
 Open Scope Z_scope.
-Local Existing Instance Hprec32.
-Local Existing Instance Hprec64.
 
 (* ------------------------------------------------------------------ *)
 (* floats: what a validated store writes                                *)
 
-Definition R64 : R -> R := round radix2 (FLT_exp (-1074) 53) ZnearestE.
-
-(* int -> double -> float is infinite exactly when the rounded double reaches the binary32 threshold *)
-Lemma int_conv4_real : forall z b, int_to_f64 z = Some b ->
-  f32_is_inf (narrow_bits b) = negb (Rlt_bool (Rabs (R64 (IZR z))) T32).
-Proof.
-  intros z b H. destruct (int_to_f64_finite z b H) as [Hn Hi].
-  rewrite narrow_inf_iff by assumption.
-  apply int_to_f64_inv in H. destruct H as (Hz & ->).
-  destruct (int_norm_correct z Hz) as (Hf & Hr).
-  rewrite xnum_of_f64_xn, b64_of_bits_of_b64.
-  set (y := Binary.binary_normalize 53 1024 Hprec64 Hmax64 mode_NE z 0 false) in *.
-  destruct (xn_finite y Hf) as (m & e & E1 & E2).
-  rewrite E1, xabs_ge_F2R, E2, Hr, IZR_T32z. reflexivity.
-Qed.
-
-Lemma float_conv4_real : forall b, f64_is_nan b = false -> f64_is_inf b = false ->
-  exists m e, xnum_of_f64 b = XFin m e /\ R64 (F2R (Float radix2 m e)) = F2R (Float radix2 m e) /\
-    f32_is_inf (narrow_bits b) = negb (Rlt_bool (Rabs (F2R (Float radix2 m e))) T32).
-Proof.
-  intros b Hn Hi. rewrite narrow_inf_iff by assumption. rewrite xnum_of_f64_xn.
-  rewrite <- b64_of_bits_is_nan in Hn. rewrite <- b64_of_bits_is_inf in Hi.
-  set (x := b64_of_bits (b mod two64)) in *.
-  pose proof (finite_of_not_nan_inf _ _ x Hn Hi) as Hf.
-  destruct (xn_finite x Hf) as (m & e & E1 & E2).
-  exists m, e. split; [exact E1|]. split.
-  - rewrite E2. unfold R64. apply round_generic; [typeclasses eauto|].
-    exact (Binary.generic_format_B2R 53 1024 x).
-  - rewrite E1, xabs_ge_F2R, IZR_T32z. reflexivity.
-Qed.
-
-(* a number that converts to a finite c_float: its exact value, as a real *)
-Lemma conv4_fin_real : forall w, is_num w = true -> nn w -> float_isinf_conv 4 w = inr false ->
-  exists r : R, (Rabs (R64 r) < T32)%R /\
-     (forall z, xlt (xnum_of w) (XFin z 0) = false -> (IZR z <= r)%R) /\
-     (forall z, xlt (XFin z 0) (xnum_of w) = false -> (r <= IZR z)%R).
-Proof.
-  intros w Hnum Hnn Hc.
-  assert (Hint : forall zw, xnum_of w = XFin zw 0 ->
-            match int_to_f64 zw with Some b => f32_is_inf (narrow_bits b) = false | None => False end ->
-            exists r : R, (Rabs (R64 r) < T32)%R /\
-              (forall z, xlt (xnum_of w) (XFin z 0) = false -> (IZR z <= r)%R) /\
-              (forall z, xlt (XFin z 0) (xnum_of w) = false -> (r <= IZR z)%R)).
-  { intros zw Hw Hi. destruct (int_to_f64 zw) as [b|] eqn:Ei; [|contradiction].
-    rewrite (int_conv4_real zw b Ei) in Hi. apply negb_false_iff in Hi.
-    exists (IZR zw). split; [|split].
-    - destruct (Rlt_bool_spec (Rabs (R64 (IZR zw))) T32); [assumption|discriminate].
-    - intros z Hz. rewrite Hw, xlt_int in Hz. apply IZR_le. lia.
-    - intros z Hz. rewrite Hw, xlt_int in Hz. apply IZR_le. lia. }
-  assert (Hflt : forall b, xnum_of w = xnum_of_f64 b -> f64_is_nan b = false ->
-            (f64_is_inf b = true \/ f32_is_inf (narrow_bits b) = false) -> f32_is_inf (narrow_bits b) = false ->
-            exists r : R, (Rabs (R64 r) < T32)%R /\
-              (forall z, xlt (xnum_of w) (XFin z 0) = false -> (IZR z <= r)%R) /\
-              (forall z, xlt (XFin z 0) (xnum_of w) = false -> (r <= IZR z)%R)).
-  { intros b Hw Hn _ Hi.
-    assert (Hinf : f64_is_inf b = false).
-    { destruct (f64_is_inf b) eqn:E; [|reflexivity]. rewrite (narrow_of_inf b E) in Hi. discriminate. }
-    destruct (float_conv4_real b Hn Hinf) as (m & e & E1 & E2 & E3).
-    rewrite E3 in Hi. apply negb_false_iff in Hi.
-    exists (F2R (Float radix2 m e)). split; [|split].
-    - rewrite E2. destruct (Rlt_bool_spec (Rabs (F2R (Float radix2 m e))) T32); [assumption|discriminate].
-    - intros z Hz. rewrite Hw, E1, xlt_F2R, F2R_exp0 in Hz.
-      destruct (Rlt_bool_spec (F2R (Float radix2 m e)) (IZR z)); [discriminate|assumption].
-    - intros z Hz. rewrite Hw, E1, xlt_F2R, F2R_exp0 in Hz.
-      destruct (Rlt_bool_spec (IZR z) (F2R (Float radix2 m e))); [discriminate|assumption]. }
-  unfold float_isinf_conv in Hc. change (4 =? 4) with true in Hc. cbv iota in Hc.
-  destruct w; try discriminate Hnum; cbn [num_to_f64 xnum_of] in *.
-  - apply (Hint z eq_refl). destruct (int_to_f64 z); [|discriminate]. now inversion Hc.
-  - apply (Hint (Z.b2z b) eq_refl). destruct (int_to_f64 (Z.b2z b)); [|discriminate]. now inversion Hc.
-  - assert (Hn : f64_is_nan bits = false) by (apply (is_nan_val_nn (PFloat bits) eq_refl); exact Hnn).
-    apply (Hflt bits eq_refl Hn); [right|]; now inversion Hc.
-  - assert (Hn : f64_is_nan bits = false) by (apply (is_nan_val_nn (PNumLike bits) eq_refl); exact Hnn).
-    apply (Hflt bits eq_refl Hn); [right|]; now inversion Hc.
-Qed.
-
-(* an int element of a validated float sequence (first element not NaN) does not become a binary32 infinity:
-   Python's max and min bound it exactly and both conversions are monotone *)
-Lemma int_item_conv4 : forall ct x0 r y z b, snd ct = 4 ->
-  float_validate_many ct (x0 :: r) = None -> is_nan_val x0 = false ->
-  In y (x0 :: r) -> xnum_of y = XFin z 0 -> int_to_f64 z = Some b ->
-  f32_is_inf (narrow_bits b) = false.
-Proof.
-  intros ct x0 r y z b Hc4 Hv Hx Hin Hy Hb. unfold float_validate_many in Hv. rewrite Hc4 in Hv.
-  destruct (forallb is_num (x0 :: r)) eqn:Hnum; cbn [negb] in Hv; [|discriminate].
-  assert (Hnumx : is_num x0 = true) by (cbn [forallb] in Hnum; lia).
-  assert (Hnx : nn x0) by (now apply is_nan_val_nn).
-  destruct (pymax_ub r x0 Hnx) as (HnM & HinM & HubM).
-  destruct (pymin_lb r x0 Hnx) as (HnN & HinN & HlbN).
-  rewrite forallb_forall in Hnum.
-  destruct (float_isinf_conv 4 (pymax x0 r)) as [e|[|]] eqn:EM; try discriminate.
-  destruct (float_isinf_conv 4 (pymin x0 r)) as [e|[|]] eqn:EN; try discriminate.
-  destruct (conv4_fin_real _ (Hnum _ HinM) HnM EM) as (rM & HM1 & HM2 & _).
-  destruct (conv4_fin_real _ (Hnum _ HinN) HnN EN) as (rN & HN1 & _ & HN3).
-  assert (Hny : nn y) by (unfold nn; rewrite Hy; reflexivity).
-  pose proof (HubM y Hin Hny) as H1. rewrite Hy in H1. apply HM2 in H1.
-  pose proof (HlbN y Hin Hny) as H2. rewrite Hy in H2. apply HN3 in H2.
-  rewrite (int_conv4_real z b Hb). apply negb_false_iff. apply Rlt_bool_true.
-  assert (L1 : (R64 (IZR z) <= R64 rM)%R) by (apply round_le; try typeclasses eauto; exact H1).
-  assert (L2 : (R64 rN <= R64 (IZR z))%R) by (apply round_le; try typeclasses eauto; exact H2).
-  apply Rabs_def2 in HM1. apply Rabs_def2 in HN1. apply Rabs_def1; lra.
-Qed.
-
-Lemma xabs_ge_inf : forall s t, xabs_ge (XInf s) t = true.
-Proof. intros [|] t; reflexivity. Qed.
-
 (* every element of a validated float sequence is stored without producing an infinity *)
-Lemma float_item_ok : forall ct items y b, fct_ok ct = true ->
-  float_validate_many ct items = None ->
-  match items with x :: _ => is_nan_val x = false | [] => True end ->
-  In y items -> num_to_f64 y = inr b ->
+Lemma float_item_ok : forall ct items y b,
+  float_validate_many ct items = None -> In y items -> num_to_f64 y = inr b ->
   (if snd ct =? 4 then f32_is_inf (narrow_bits b) else f64_is_inf b) = false.
 Proof.
-  intros ct items y b Hct Hv Hhd Hin Hb.
-  destruct items as [|x0 r]; [contradiction|].
-  assert (Hnum : forallb is_num (x0 :: r) = true).
-  { unfold float_validate_many in Hv. destruct (forallb is_num (x0 :: r)); [reflexivity|discriminate]. }
-  assert (Hw : snd ct = 4 \/ snd ct = 8) by (unfold fct_ok in Hct; lia).
-  assert (Hint : forall z, xnum_of y = XFin z 0 -> int_to_f64 z = Some b ->
-            (if snd ct =? 4 then f32_is_inf (narrow_bits b) else f64_is_inf b) = false).
-  { intros z Hy Hz. destruct Hw as [Hw|Hw]; rewrite Hw; cbn [Z.eqb Pos.eqb].
-    - eapply int_item_conv4; eauto.
-    - apply (int_to_f64_finite z b Hz). }
-  assert (Hflt : xnum_of y = xnum_of_f64 b -> is_num y = true -> (is_nan_val y = f64_is_nan b) ->
-            (if snd ct =? 4 then f32_is_inf (narrow_bits b) else f64_is_inf b) = false).
-  { intros Hy Hny Hnan. destruct (f64_is_nan b) eqn:En.
-    - destruct (snd ct =? 4); [apply (narrow_nan b En)|].
-      destruct (f64_is_inf b) eqn:Ei; [|reflexivity]. rewrite (f64_inf_not_nan b Ei) in En. discriminate.
-    - destruct (if snd ct =? 4 then f32_is_inf (narrow_bits b) else f64_is_inf b) eqn:E; [exfalso|reflexivity].
-      assert (Hnn : nn y) by (apply is_nan_val_nn; assumption).
-      destruct (f64_is_inf b) eqn:Ei.
-      + assert (Hge : xabs_ge (xnum_of y) int_overflow_threshold = true).
-        { rewrite Hy. destruct (xnum_of_f64 b) as [|s|m e] eqn:Ex.
-          - apply xnum_of_f64_nan in Ex. congruence.
-          - apply xabs_ge_inf.
-          - exfalso. assert (Hx : xnum_of_f64 b = XInf (f64_sign b)) by (apply xnum_of_f64_inf; auto). congruence. }
-        exact (big_item_refused ct int_overflow_threshold x0 r y Hct (or_intror eq_refl) thr64_pos Hnum Hhd Hin Hnn Hge Hv).
-      + destruct (snd ct =? 4) eqn:E4; [|congruence].
-        rewrite narrow_inf_iff in E by assumption.
-        assert (Hge : xabs_ge (xnum_of y) T32z = true) by (rewrite Hy; exact E).
-        assert (Hbig : big_for ct T32z) by (left; split; [reflexivity|lia]).
-        exact (big_item_refused ct T32z x0 r y Hct Hbig T32z_pos Hnum Hhd Hin Hnn Hge Hv). }
-  destruct y; cbn [num_to_f64] in Hb; try discriminate Hb.
-  - destruct (int_to_f64 z) as [b'|] eqn:Ez; [|discriminate]. inversion Hb; subst b'. now apply (Hint z).
-  - destruct (int_to_f64 (Z.b2z b0)) as [b'|] eqn:Ez; [|discriminate]. inversion Hb; subst b'. now apply (Hint (Z.b2z b0)).
-  - inversion Hb; subst bits. now apply Hflt.
-  - inversion Hb; subst bits. now apply Hflt.
+  intros ct items y b Hv Hin Hb. pose proof (validate_many_all ct items y Hv Hin) as Hc.
+  unfold float_isinf_conv in Hc. rewrite Hb in Hc. now inversion Hc.
 Qed.
 
 (* a narrowed NaN is quiet *)
@@ -445,15 +304,15 @@ Qed.
 (* ------------------------------------------------------------------ *)
 (* array elements                                                       *)
 
-Lemma arr_item_ok : forall e v x bs, elem_ok e = true -> plain v = true -> excl_e e v = true ->
+Lemma arr_item_ok : forall e v x bs, elem_ok e = true -> plain v = true ->
   match iter_items v with Some its => elem_validate_many e v its | None => elem_validate_one e v end = None ->
   src (bytearray_conv e v) x -> elem_store e x = inr bs -> bytes bs /\ elem_inv e bs = true.
 Proof.
-  intros e v x bs He Hp Hx Hv Hsrc Hs.
+  intros e v x bs He Hp Hv Hsrc Hs.
   assert (Hpx : plain x = true) by (eapply src_plain; [apply bytearray_conv_plain; exact Hp|exact Hsrc]).
   split; [unfold elem_store in Hs; eapply cstore_bytes; eauto|].
   destruct e as [vid r|vid ct|r]; try reflexivity.
-  cbn [elem_ok excl_e bytearray_conv] in *.
+  cbn [elem_ok bytearray_conv] in *.
   replace (match v with _ => v end) with v in Hsrc by (destruct v; reflexivity).
   unfold elem_store in Hs. cbn [elem_ct fst snd] in Hs.
   destruct Hsrc as [->|(items & Hi & Hin)].
@@ -466,19 +325,17 @@ Proof.
     assert (Hk : fst ct = 2) by (unfold fct_ok in He; lia).
     rewrite Hk, cstore_float in Hs by exact Hpx.
     destruct (num_to_f64 x) as [err|b] eqn:En; [discriminate|]. inversion Hs; subst bs.
-    apply float_bytes_inv; [exact He|].
-    eapply float_item_ok; eauto.
-    unfold head_not_nan in Hx. rewrite Hi in Hx. destruct items; [exact I|]. now apply negb_true_iff in Hx.
+    apply float_bytes_inv; [exact He|]. eapply float_item_ok; eauto.
 Qed.
 
 Lemma arr_local : forall e n off m k v, elem_ok e = true -> (off + n * elem_size e <= length m)%nat ->
-  plain v = true -> excl_e e v = true -> bytes m ->
+  plain v = true -> bytes m ->
   (forall p, (p < n)%nat -> elem_inv e (sub m (off + p * elem_size e) (elem_size e)) = true) ->
   bytes (snd (arr_setitem true e n off m k v)) /\
   (forall p, (p < n)%nat ->
      elem_inv e (sub (snd (arr_setitem true e n off m k v)) (off + p * elem_size e) (elem_size e)) = true).
 Proof.
-  intros e n off m k v He Hm Hp Hx Hb Hinv. unfold arr_setitem.
+  intros e n off m k v He Hm Hp Hb Hinv. unfold arr_setitem.
   destruct (match iter_items v with Some items => elem_validate_many e v items | None => elem_validate_one e v end) eqn:Ev;
     [cbn [snd]; auto|].
   set (esz := elem_size e) in *.
@@ -487,7 +344,7 @@ Proof.
   assert (HR : R (snd (carr_assign (elem_store e) esz n off m k (bytearray_conv e v)))).
   { apply carr_assign_ind; [|unfold R; auto].
     intros m0 p x bs (Hl0 & Hb0 & Hi0) Hpr Hsrc Hs.
-    destruct (arr_item_ok e v x bs He Hp Hx Ev Hsrc Hs) as [Hbb Hbi].
+    destruct (arr_item_ok e v x bs He Hp Ev Hsrc Hs) as [Hbb Hbi].
     pose proof (elem_store_length e x bs He Hs) as Hlen. fold esz in Hlen.
     assert (Hq : (Z.to_nat p * esz + esz <= n * esz)%nat) by nia.
     split; [|split].
@@ -501,7 +358,7 @@ Proof.
 Qed.
 
 (* ------------------------------------------------------------------ *)
-(* one validated assignment: the image stays bytes and the assigned leaf keeps its invariant *)
+(* strings                                                              *)
 
 Lemma ascii_bytes : forall cs, all_ascii cs = true -> bytes cs.
 Proof.
@@ -509,95 +366,137 @@ Proof.
   intros x Hx. specialize (H x Hx). lia.
 Qed.
 
-Lemma string_local : forall n off m cs, (1 <= n)%nat -> (off + n <= length m)%nat ->
-  all_ascii cs = true -> (length cs < n)%nat -> bytes m ->
-  all_ascii (sub m off n) = true -> last (sub m off n) 0 = 0 ->
-  bytes (snd (ok_or m off (s_set n cs))) /\
-  all_ascii (sub (snd (ok_or m off (s_set n cs))) off n) = true /\
-  last (sub (snd (ok_or m off (s_set n cs))) off n) 0 = 0.
+Lemma bytes_zeros : forall n, bytes (repeat 0 n).
+Proof. intros n. apply Forall_forall. intros x Hx. apply repeat_spec in Hx. lia. Qed.
+
+Lemma zl_eqb_refl : forall l, zl_eqb l l = true.
+Proof. induction l; cbn [zl_eqb]; [reflexivity|]. rewrite Z.eqb_refl. exact IHl. Qed.
+
+Lemma sub_splice_within : forall m off bs o k, (off + length bs <= length m)%nat ->
+  (off <= o)%nat -> (o + k <= off + length bs)%nat -> sub (splice m off bs) o k = sub bs (o - off) k.
 Proof.
-  intros n off m cs Hn Hm Ha Hl Hb Hia Hil. unfold s_set.
+  intros m off bs o k Hm Ho Hk. apply nth_ext_eq.
+  - rewrite !sub_length; try lia. rewrite splice_length; lia.
+  - intros j Hj. rewrite sub_length in Hj by (rewrite splice_length; lia).
+    rewrite !sub_nth by (rewrite ?splice_length; lia).
+    rewrite splice_nth_inside by lia. f_equal. lia.
+Qed.
+
+(* the sanitized extent: the string up to its first NUL, then zeros (at least one) *)
+Definition sclean (t : ftype) (bs : list Z) : bool := match t with TString _ => string_clean bs | _ => true end.
+
+Lemma string_clean_form : forall p k, Forall (fun c => c <> 0) p -> (1 <= k)%nat ->
+  string_clean (p ++ repeat 0 k) = true.
+Proof.
+  intros p k Hp Hk. unfold string_clean.
+  assert (Ht : take_until_nul (p ++ repeat 0 k) = p).
+  { destruct k; [lia|]. cbn [repeat]. now apply take_until_nul_app_zero. }
+  rewrite Ht. cbv zeta. rewrite skipn_app, skipn_all, Nat.sub_diag. cbn [skipn app].
+  rewrite app_length, repeat_length. replace (length p + k - length p)%nat with k by lia. apply zl_eqb_refl.
+Qed.
+
+Lemma all_ascii_form : forall p k, all_ascii p = true -> all_ascii (p ++ repeat 0 k) = true.
+Proof. intros p k Hp. unfold all_ascii in *. rewrite forallb_app, Hp. apply all_ascii_zeros. Qed.
+
+Lemma last_form : forall p k, (1 <= k)%nat -> last (p ++ repeat 0 k) 0 = 0.
+Proof.
+  intros p k Hk. rewrite last_nth'. rewrite app_length, repeat_length.
+  rewrite app_nth2 by lia. apply nth_repeat.
+Qed.
+
+(* the validated String store: clear when shorter, then copy up to the NUL and the NUL itself *)
+Lemma string_extent : forall n off m cs, (1 <= n)%nat -> (off + n <= length m)%nat -> (length cs < n)%nat -> bytes m ->
+  all_ascii cs = true ->
+  let m0 := if (1 <? n)%nat && (length cs <? n)%nat then splice m off (repeat 0 n) else m in
+  let m' := snd (ok_or m0 off (s_set n cs)) in
+  bytes m' /\ sub m' off n = take_until_nul cs ++ repeat 0 (n - length (take_until_nul cs)).
+Proof.
+  intros n off m cs Hn Hm Hl Hb Ha m0 m'.
   pose proof (take_until_nul_length cs) as Hpl. pose proof (all_ascii_take cs Ha) as Hpa.
-  set (p := take_until_nul cs) in *.
+  assert (Hb0 : bytes m0).
+  { subst m0. destruct ((1 <? n)%nat && (length cs <? n)%nat); [|exact Hb]. apply bytes_splice; [exact Hb|apply bytes_zeros]. }
+  assert (Hl0 : length m0 = length m).
+  { subst m0. destruct ((1 <? n)%nat && (length cs <? n)%nat); [|reflexivity].
+    apply splice_length. rewrite repeat_length. exact Hm. }
+  subst m'. unfold s_set. set (p := take_until_nul cs) in *.
   replace (length p <? n)%nat with true by lia. cbn [ok_or snd].
   assert (HL : length (p ++ [0]) = (length p + 1)%nat) by (rewrite app_length; reflexivity).
-  assert (Hpz : all_ascii (p ++ [0]) = true).
-  { unfold all_ascii in *. rewrite forallb_app, Hpa. reflexivity. }
-  split; [|split].
-  - apply bytes_splice; [exact Hb|]. now apply ascii_bytes.
-  - rewrite sub_splice_prefix by lia. unfold all_ascii. rewrite forallb_app. fold (all_ascii (p ++ [0])).
-    rewrite Hpz. cbn [andb]. fold (all_ascii (sub m (off + length (p ++ [0])) (n - length (p ++ [0])))).
-    apply all_ascii_sub; [lia|]. intros j Hj.
-    rewrite all_ascii_sub in Hia by lia. specialize (Hia (length (p ++ [0%Z]) + j)%nat ltac:(lia)).
-    now rewrite Nat.add_assoc in Hia.
-  - rewrite last_sub by (rewrite ?splice_length; lia). rewrite last_sub in Hil by lia.
-    destruct (Nat.eq_dec (length p + 1) n) as [E|E].
-    + rewrite splice_nth_inside by lia. rewrite app_nth2 by lia.
-      replace (off + n - 1 - off - length p)%nat with 0%nat by lia. reflexivity.
-    + rewrite splice_nth_outside by lia. exact Hil.
+  assert (Hpz : bytes (p ++ [0])).
+  { apply ascii_bytes. unfold all_ascii in *. rewrite forallb_app, Hpa. reflexivity. }
+  split; [now apply bytes_splice|].
+  rewrite sub_splice_prefix by lia. rewrite <- app_assoc. f_equal.
+  replace (n - length p)%nat with (S (n - length (p ++ [0]))) by lia. cbn [repeat app]. f_equal.
+  destruct (Nat.eq_dec n (length (p ++ [0]))) as [E|E].
+  - rewrite <- E, Nat.sub_diag. reflexivity.
+  - subst m0. replace ((1 <? n)%nat && (length cs <? n)%nat) with true by lia.
+    rewrite sub_splice_within by (rewrite ?repeat_length; lia). apply sub_repeat. lia.
 Qed.
 
 Lemma cstore_char : forall cs, cstore 3 1 (PBytes cs) = match cs with [b] => inr [b] | _ => inl ETypeError end.
 Proof. reflexivity. Qed.
 
-Lemma excl_arr : forall e n v, excl (TArr e n) v = excl_e e v.
-Proof. intros [vid r|vid ct|r] n v; reflexivity. Qed.
+(* ------------------------------------------------------------------ *)
+(* one validated assignment: the image stays bytes, the assigned leaf keeps its invariant and stays clean *)
 
 Lemma set_local : forall f k m v, leaf_ty_ok (f_ty f) = true -> (f_end f <= length m)%nat ->
-  plain v = true -> excl (f_ty f) v = true -> bytes m -> leaf_inv (f_ty f) (extent f m) = true ->
-  bytes (snd (set true f k m v)) /\ leaf_inv (f_ty f) (extent f (snd (set true f k m v))) = true.
+  plain v = true -> bytes m -> leaf_inv (f_ty f) (extent f m) = true -> sclean (f_ty f) (extent f m) = true ->
+  bytes (snd (set true f k m v)) /\ leaf_inv (f_ty f) (extent f (snd (set true f k m v))) = true /\
+  sclean (f_ty f) (extent f (snd (set true f k m v))) = true.
 Proof.
-  intros f k m v Hty Hend Hp Hx Hb Hinv. unfold f_end in Hend. unfold extent in *. unfold set.
-  destruct (f_ty f) as [r|ct|r| |n|e n|cls size|cls esz n] eqn:Et; cbn [leaf_ty_ok leaf_inv fsize] in *;
+  intros f k m v Hty Hend Hp Hb Hinv Hcl. unfold f_end in Hend. unfold extent in *. unfold set.
+  destruct (f_ty f) as [r|ct|r| |n|e n|cls size|cls esz n] eqn:Et; cbn [leaf_ty_ok leaf_inv fsize sclean] in *;
     try discriminate Hty.
   - (* TInt *)
-    split; [|reflexivity]. destruct k; try exact Hb.
+    split; [|split; reflexivity]. destruct k; try exact Hb.
     destruct (int_validate_one r v); [exact Hb|].
     destruct (ok_or_cases m (f_off f) (cstore (c_kind r) (c_width r) v)) as [->|(bs & Hs & ->)]; [exact Hb|].
     apply bytes_splice; [exact Hb|]. eapply cstore_bytes; eauto.
   - (* TFloat *)
-    destruct k; try (split; [exact Hb|exact Hinv]).
-    destruct (float_validate_one ct v) eqn:Ev; [split; [exact Hb|exact Hinv]|].
-    destruct (ok_or_cases m (f_off f) (cstore (fst ct) (snd ct) v)) as [->|(bs & Hs & ->)]; [split; [exact Hb|exact Hinv]|].
+    destruct k; try (split; [exact Hb|split; [exact Hinv|reflexivity]]).
+    destruct (float_validate_one ct v) eqn:Ev; [split; [exact Hb|split; [exact Hinv|reflexivity]]|].
+    destruct (ok_or_cases m (f_off f) (cstore (fst ct) (snd ct) v)) as [->|(bs & Hs & ->)];
+      [split; [exact Hb|split; [exact Hinv|reflexivity]]|].
     pose proof (cstore_length _ _ _ _ (fct_ok_ct ct Hty) Hs) as Hl.
-    split; [apply bytes_splice; [exact Hb|]; eapply cstore_bytes; eauto|].
+    split; [apply bytes_splice; [exact Hb|]; eapply cstore_bytes; eauto|]. split; [|reflexivity].
     rewrite <- Hl. rewrite sub_splice_same by lia. eapply float_one_ok; eauto.
   - (* TByte *)
-    split; [|reflexivity]. destruct k; try exact Hb.
+    split; [|split; reflexivity]. destruct k; try exact Hb.
     destruct (byte_validate_one r v); [exact Hb|].
     set (v' := match v with PBytes bs => PInt (le_decode bs) | _ => v end).
     assert (Hp' : plain v' = true) by (subst v'; destruct v; try exact Hp; reflexivity).
     destruct (ok_or_cases m (f_off f) (cstore (c_kind r) (c_width r) v')) as [->|(bs & Hs & ->)]; [exact Hb|].
     apply bytes_splice; [exact Hb|]. eapply cstore_bytes; eauto.
   - (* TChar *)
-    destruct k; try (split; [exact Hb|exact Hinv]).
+    destruct k; try (split; [exact Hb|split; [exact Hinv|reflexivity]]).
     rewrite plain_not_cinst by exact Hp.
-    destruct (char_validate_one v) eqn:Ev; [split; [exact Hb|exact Hinv]|].
+    destruct (char_validate_one v) eqn:Ev; [split; [exact Hb|split; [exact Hinv|reflexivity]]|].
     unfold char_validate_one in Ev. rewrite plain_not_cinst in Ev by exact Hp.
     destruct v; try discriminate Ev. cbn [encode_ascii].
     destruct (guard_char_len char_len (Z.of_nat (length cs))); [discriminate|].
     destruct (all_ascii cs) eqn:Ea; cbn [negb] in Ev; [|discriminate].
     change (fst char_ctype) with 3. change (snd char_ctype) with 1. rewrite cstore_char.
-    destruct cs as [|b0 [|b1 r0]]; cbn [ok_or snd]; try (split; [exact Hb|exact Hinv]).
-    split; [apply bytes_splice; [exact Hb|now apply ascii_bytes]|].
+    destruct cs as [|b0 [|b1 r0]]; cbn [ok_or snd]; try (split; [exact Hb|split; [exact Hinv|reflexivity]]).
+    split; [apply bytes_splice; [exact Hb|now apply ascii_bytes]|]. split; [|reflexivity].
     change 1%nat with (length [b0]). rewrite sub_splice_same by (cbn [length]; lia). exact Ea.
   - (* TString *)
-    destruct k; try (split; [exact Hb|exact Hinv]).
-    destruct (string_validate_one n v) eqn:Ev; [split; [exact Hb|exact Hinv]|].
+    destruct k; try (split; [exact Hb|split; [exact Hinv|exact Hcl]]).
+    destruct (string_validate_one n v) eqn:Ev; [split; [exact Hb|split; [exact Hinv|exact Hcl]]|].
     unfold string_validate_one in Ev. destruct v; try discriminate Ev. cbn [encode_ascii].
     unfold guard_string_len in Ev. destruct (Z.of_nat n - 1 <? Z.of_nat (length cs)) eqn:El; [discriminate|].
     destruct (all_ascii cs) eqn:Ea; cbn [negb] in Ev; [|discriminate].
-    apply andb_true_iff in Hinv as [Hia Hil].
-    destruct (string_local n (f_off f) m cs) as (H1 & H2 & H3); try lia; auto.
-    split; [exact H1|]. rewrite H2, H3. reflexivity.
+    destruct (string_extent n (f_off f) m cs) as (H1 & H2); try lia; auto.
+    cbv zeta. split; [exact H1|]. rewrite H2.
+    pose proof (take_until_nul_length cs) as Hpl.
+    rewrite all_ascii_form by (now apply all_ascii_take). rewrite last_form by lia.
+    rewrite string_clean_form; [auto|apply take_until_nul_nozero|lia].
   - (* TArr *)
-    pose proof (leaf_arr_elem_ok e n Hty) as He. rewrite excl_arr in Hx.
+    pose proof (leaf_arr_elem_ok e n Hty) as He.
     assert (Hset : forall k', bytes (snd (arr_setitem true e n (f_off f) m k' v)) /\
               forallb (elem_inv e) (chunks (elem_size e) n
-                 (sub (snd (arr_setitem true e n (f_off f) m k' v)) (f_off f) (n * elem_size e))) = true).
+                 (sub (snd (arr_setitem true e n (f_off f) m k' v)) (f_off f) (n * elem_size e))) = true /\ true = true).
     { intros k'. rewrite arr_inv_iff in Hinv by exact Hend.
-      destruct (arr_local e n (f_off f) m k' v He Hend Hp Hx Hb Hinv) as [H1 H2].
-      split; [exact H1|]. apply arr_inv_iff; [|exact H2].
+      destruct (arr_local e n (f_off f) m k' v He Hend Hp Hb Hinv) as [H1 H2].
+      split; [exact H1|]. split; [|reflexivity]. apply arr_inv_iff; [|exact H2].
       assert (Hl : length (snd (arr_setitem true e n (f_off f) m k' v)) = length m).
       { unfold arr_setitem.
         destruct (match iter_items v with Some items => elem_validate_many e v items | None => elem_validate_one e v end);
@@ -613,11 +512,12 @@ Qed.
 Definition Inv (leaves : list field) (size : nat) (m : list Z) : Prop :=
   length m = size /\ bytes m /\
   (forall g, In g leaves -> leaf_inv (f_ty g) (extent g m) = true) /\
-  (forall j, (j < size)%nat -> covered leaves j = false -> nth j m 0 = 0).
+  (forall j, (j < size)%nat -> covered leaves j = false -> nth j m 0 = 0) /\
+  (forall g, In g leaves -> sclean (f_ty g) (extent g m) = true).
 
 Lemma Inv_reach_inv : forall leaves size m, Inv leaves size m -> reach_inv leaves size m = true.
 Proof.
-  intros leaves size m (Hl & Hb & Hg & Hu). unfold reach_inv.
+  intros leaves size m (Hl & Hb & Hg & Hu & _). unfold reach_inv.
   repeat (apply andb_true_iff; split).
   - now apply Nat.eqb_eq.
   - now apply all_bytes_iff.
@@ -626,41 +526,56 @@ Proof.
     destruct (covered leaves j) eqn:Ec; [reflexivity|]. cbn [orb]. apply Z.eqb_eq. apply Hu; [lia|exact Ec].
 Qed.
 
+Lemma Inv_strings_clean : forall leaves size m, Inv leaves size m -> strings_clean leaves m = true.
+Proof.
+  intros leaves size m (_ & _ & _ & _ & Hc). unfold strings_clean. apply forallb_forall. exact Hc.
+Qed.
+
 Lemma Inv_zero : forall leaves size, layout_ok size leaves = true -> Inv leaves size (repeat 0 size).
 Proof.
-  intros leaves size HL. split; [apply repeat_length|]. split; [|split].
-  - apply Forall_forall. intros x Hx. apply repeat_spec in Hx. lia.
+  intros leaves size HL. split; [apply repeat_length|]. split; [apply bytes_zeros|]. split; [|split].
   - intros g Hg. destruct (layout_in size leaves g HL Hg) as [Hty Hend]. unfold extent.
     rewrite sub_repeat by exact Hend. now apply leaf_inv_zeros.
   - intros j _ _. apply nth_repeat.
+  - intros g Hg. destruct (layout_in size leaves g HL Hg) as [Hty Hend]. unfold extent.
+    rewrite sub_repeat by exact Hend. destruct (f_ty g); try reflexivity. cbn [sclean fsize leaf_ty_ok] in *.
+    apply (string_clean_form [] n); [constructor|lia].
 Qed.
 
 Lemma Inv_set : forall leaves size m f k v, layout_ok size leaves = true -> Inv leaves size m ->
-  In f leaves -> plain v = true -> excl (f_ty f) v = true -> Inv leaves size (snd (set true f k m v)).
+  In f leaves -> plain v = true -> Inv leaves size (snd (set true f k m v)).
 Proof.
-  intros leaves size m f k v HL (Hl & Hb & Hg & Hu) Hf Hp Hx.
+  intros leaves size m f k v HL (Hl & Hb & Hg & Hu & Hc) Hf Hp.
   destruct (layout_in size leaves f HL Hf) as [Hty Hend].
   assert (Hwf : wf_field f m) by (unfold wf_field; unfold f_end in Hend; lia).
   pose proof (set_frame true f k m v (leaf_ty_ftype_ok _ Hty) Hwf) as Hfr.
-  destruct (set_local f k m v Hty ltac:(lia) Hp Hx Hb (Hg f Hf)) as [Hb' Hi'].
+  destruct (set_local f k m v Hty ltac:(lia) Hp Hb (Hg f Hf) (Hc f Hf)) as (Hb' & Hi' & Hc').
   set (m' := snd (set true f k m v)) in *.
-  split; [destruct Hfr; lia|]. split; [exact Hb'|]. split.
-  - intros g Hin. destruct (layout_pair size leaves f g HL Hf Hin) as [<-|Hd]; [exact Hi'|].
+  assert (Hext : forall g, In g leaves -> g = f \/ extent g m' = extent g m).
+  { intros g Hin. destruct (layout_pair size leaves f g HL Hf Hin) as [<-|Hd]; [now left|right].
     destruct (layout_in size leaves g HL Hin) as [_ Hgend]. unfold extent.
-    rewrite (frame_sub _ _ _ _ (f_off g) (fsize (f_ty g)) Hfr); [now apply Hg| |]; unfold f_end in *; lia.
-  - intros j Hj Hc. destruct Hfr as [_ Hout]. rewrite Hout; [now apply Hu|].
+    apply (frame_sub _ _ _ _ (f_off g) (fsize (f_ty g)) Hfr); unfold f_end in *; lia. }
+  split; [destruct Hfr; lia|]. split; [exact Hb'|]. split; [|split].
+  - intros g Hin. destruct (Hext g Hin) as [-> | ->]; [exact Hi'|now apply Hg].
+  - intros j Hj Hcv. destruct Hfr as [_ Hout]. rewrite Hout; [now apply Hu|].
     destruct (Nat.lt_ge_cases j (f_off f)) as [H1|H1]; [now left|].
     destruct (Nat.lt_ge_cases j (f_end f)) as [H2|H2]; [|right; exact H2].
-    exfalso. assert (Hc' : covered leaves j = true).
+    exfalso. assert (Hc'' : covered leaves j = true).
     { unfold covered. apply existsb_exists. exists f. split; [exact Hf|]. lia. }
     congruence.
+  - intros g Hin. destruct (Hext g Hin) as [-> | ->]; [exact Hc'|now apply Hc].
+Qed.
+
+Lemma reach_Inv : forall leaves size m, layout_ok size leaves = true -> reach leaves size m -> Inv leaves size m.
+Proof.
+  intros leaves size m HL Hr. induction Hr; [now apply Inv_zero|now apply Inv_set].
 Qed.
 
 Theorem reach_invariant : forall leaves size m,
   layout_ok size leaves = true -> reach leaves size m -> reach_inv leaves size m = true.
-Proof.
-  intros leaves size m HL Hr. apply Inv_reach_inv. induction Hr.
-  - now apply Inv_zero.
-  - now apply Inv_set.
-Qed.
+Proof. intros leaves size m HL Hr. eapply Inv_reach_inv, reach_Inv; eauto. Qed.
+
+Theorem reach_strings_clean : forall leaves size m,
+  layout_ok size leaves = true -> reach leaves size m -> strings_clean leaves m = true.
+Proof. intros leaves size m HL Hr. eapply Inv_strings_clean, reach_Inv; eauto. Qed.
 
